@@ -22,25 +22,50 @@ theorem C18_session_status_defined (s : SessionStatus) : Cddl.sessionStatus (.ui
 theorem C18_response_status_defined (s : ResponseStatus) : Cddl.responseStatus (.uint s.toNat) = true := by
   cases s <;> rfl
 
-/-- SessionData: exact keys, data a bstr, status from the defined set (whenever at least one of
-the two members is present, as in every message the library builds). -/
-theorem C18_sessionData_conforms (x : SessionData) (h : x.data.isSome ∨ x.status.isSome) :
+/-- what the library's three constructions of a SessionData have in common (reader `new_request`,
+device `finalize_if_complete` in both of its branches): a ciphertext alone, or a status alone — and
+in general: a ciphertext is never shorter than its tag and never accompanies an error status -/
+def SessionData.Built (x : SessionData) : Prop :=
+  (x.data.isSome ∨ x.status.isSome) ∧ (∀ b, x.data = some b → 16 ≤ b.length) ∧
+  (x.data.isSome → x.status = none ∨ x.status = some .SessionTermination)
+
+/-- SessionData: exact keys, data a ciphertext, status from the defined set, no data beside an
+error status. -/
+theorem C18_sessionData_conforms (x : SessionData) (h : x.Built) :
     Cddl.sessionData x.toCbor = true := by
   obtain ⟨d, s⟩ := x
+  obtain ⟨h1, h2, h3⟩ := h
   cases d with
   | none =>
     cases s with
-    | none => simp at h
+    | none => simp at h1
     | some s => cases s <;> decide
   | some b =>
-    cases s with
-    | none =>
+    have hb : 16 ≤ b.length := h2 b rfl
+    rcases h3 rfl with hs | hs
+    · simp only at hs; subst hs
       simp +decide [SessionData.toCbor, optF, Cddl.sessionData, Cddl.onlyKeys, Cddl.keys, Cddl.noDup, Cddl.opt,
-        Cddl.get, lookup, Cddl.isBytes]
-    | some s =>
-      cases s <;>
-        (simp +decide [SessionData.toCbor, optF, Cddl.sessionData, Cddl.onlyKeys, Cddl.keys, Cddl.noDup, Cddl.opt,
-          Cddl.get, lookup, Cddl.isBytes, Cddl.sessionStatus, SessionStatus.toNat])
+        Cddl.get, lookup, Cddl.isCiphertext, hb]
+    · simp only at hs; subst hs
+      simp +decide [SessionData.toCbor, optF, Cddl.sessionData, Cddl.onlyKeys, Cddl.keys, Cddl.noDup, Cddl.opt,
+        Cddl.get, lookup, Cddl.isCiphertext, Cddl.sessionStatus, SessionStatus.toNat, hb]
+
+/-- the validator is not vacuous about the new clauses: an empty `data` beside status 10, and a
+ciphertext shorter than a GCM tag, are refused -/
+example : Cddl.sessionData (.map [(tx "data", .bytes []), (tx "status", .uint 10)]) = false := by decide
+example : Cddl.sessionData (.map [(tx "data", .bytes [1, 2, 3])]) = false := by decide
+example : Cddl.sessionData (.map [(tx "data", .bytes (List.replicate 16 0)), (tx "status", .uint 20)]) = true := by decide
+
+/-- the device-signature algorithm the crate announces for a device key (`CoseKey::signature_algorithm`,
+re-extracted from the source on every run) is, for EVERY key it signs for, the algorithm the COSE
+registry fixes for that key's type and curve; keys outside the table get no signature at all -/
+theorem C18_signature_algorithm_matches_curve :
+    Generated.signatureAlgorithm.all Cddl.sigAlgRowOk = true := by decide +kernel
+
+/-- non-vacuity: the table is not empty and a wrong pairing is refused (ES256 for secp256k1) -/
+example : Generated.signatureAlgorithm.length = 5 := by decide +kernel
+example : Cddl.sigAlgRowOk ("EC2".toList.map (·.toNat), "P256K".toList.map (·.toNat), "ES256".toList.map (·.toNat)) = false := by
+  decide +kernel
 
 /-- a status-only message carries no data member at all -/
 theorem C18_status_only_has_no_data (s : SessionStatus) :
